@@ -280,7 +280,7 @@ static int composite_request (int tri, const ll *v, int nv, char *out, size_t ca
         pixman_color_t c; uint32_t p = (uint32_t) sarg;
         c.alpha = (p >> 24) * 0x101; c.red = ((p >> 16) & 0xff) * 0x101; c.green = ((p >> 8) & 0xff) * 0x101; c.blue = (p & 0xff) * 0x101;
         src = pixman_image_create_solid_fill (&c);
-    } else {                /* 7x5 a8r8g8b8 (sk 1) or x8r8g8b8 (sk 2, opaque) bitmap, repeat NORMAL */
+    } else {                /* 7x5 a8r8g8b8 (sk 1) or x8r8g8b8 (sk 2, 3: opaque) bitmap, repeat NORMAL; sk 3 with an effective source clip */
         src = make_filled (sk == 1 ? PIXMAN_a8r8g8b8 : PIXMAN_x8r8g8b8, 7, 5, (uint64_t) sarg, &sb, &sst);
         if (sk == 1) { /* premultiply */
             for (int i = 0; i < 35; i++) { uint32_t p = ((uint32_t *) sb)[i]; uint32_t a = p >> 24;
@@ -288,6 +288,13 @@ static int composite_request (int tri, const ll *v, int nv, char *out, size_t ca
                 ((uint32_t *) sb)[i] = (a << 24) | (r << 16) | (g << 8) | b; }
         }
         pixman_image_set_repeat (src, PIXMAN_REPEAT_NORMAL);
+        if (sk == 3) {      /* opaque bitmap whose clip region is enabled for use as a source (client clip + source clipping):
+                               both routes must confine the drawing to the translated clip */
+            pixman_region32_t r; pixman_region32_init_rect (&r, 1, 1, (unsigned) (w * 2 / 3 + 1), (unsigned) (h * 2 / 3 + 1));
+            pixman_region32_union_rect (&r, &r, w * 2 / 3 + 3, 0, 2, (unsigned) (h / 2 + 1));
+            pixman_image_set_clip_region32 (src, &r); pixman_region32_fini (&r);
+            pixman_image_set_source_clipping (src, 1); pixman_image_set_has_client_clip (src, 1);
+        }
     }
     /* the entry point under test */
     if (!tri) pixman_composite_trapezoids ((pixman_op_t) op, src, d1, mf, xs, ys, xd, yd, cnt, tz);
@@ -729,7 +736,7 @@ static void gen_composite_case (int variant)
     int fi = rng_n (N_DST_FORMATS);
     int w = pick_size (), h = pick_size ();
     int md = pick_depth ();
-    int sk = rng_n (3);
+    int sk = rng_n (4);
     ll sarg;
     if (sk == 0) { uint32_t a = rng_chance (40) ? 255 : rng_chance (30) ? 0 : rng_n (256); uint32_t r = rng_n (a + 1), g = rng_n (a + 1), b = rng_n (a + 1); sarg = ((ll) a << 24) | (r << 16) | (g << 8) | b; }
     else sarg = rng_u32 ();
@@ -737,7 +744,7 @@ static void gen_composite_case (int variant)
     int xd = 0, yd = 0;
     if (variant) { xd = pick_off (); yd = pick_off (); if (rng_chance (40)) { xd = rng_range (1, 5); } }
     /* route selection: ADD + opaque source + mask format == destination format takes the direct route */
-    if (rng_chance (25)) { op = 12; sk = rng_chance (50) ? 2 : 0; if (sk == 0) sarg = 0xff000000LL | (rng_u32 () & 0xffffff); fi = 3 + rng_n (3); md = fi == 3 ? 8 : fi == 4 ? 4 : 1; }
+    if (rng_chance (25)) { op = 12; sk = rng_chance (50) ? 2 : rng_chance (40) ? 3 : 0; if (sk == 0) sarg = 0xff000000LL | (rng_u32 () & 0xffffff); fi = 3 + rng_n (3); md = fi == 3 ? 8 : fi == 4 ? 4 : 1; }
     uint32_t fill = rng_u32 ();
     int tri = rng_chance (30);
     int cnt = rng_range (1, 3);
